@@ -54,7 +54,7 @@ type Op struct {
 func (o Op) String() string {
 	s := o.K
 	switch o.K {
-	case "add", "trigger", "get", "barwait", "traverse", "avgadj", "proxyr", "proxyw", "isrun":
+	case "add", "trigger", "get", "barwait", "traverse", "avgadj", "proxyr", "proxyw", "isrun", "cur", "comp", "abrt", "id":
 		s += fmt.Sprint(o.B)
 	case "incr", "setcur", "refill", "ewma":
 		s += fmt.Sprintf("%d(%d)", o.B, o.N)
@@ -312,6 +312,7 @@ type runner struct {
 	stop   chan struct{} // closed when refreshing can no longer be consumed
 	stopO  sync.Once
 	line   int
+	wg     *sync.WaitGroup
 }
 
 var errFill = errors.New("filler failed")
@@ -416,7 +417,7 @@ func (r *runner) do(client int, op Op) {
 	x := r.x
 	var bar *mpb.Bar
 	switch op.K {
-	case "add", "write", "refresh", "cancel", "shutdown", "undelay", "yield", "pwait":
+	case "add", "write", "refresh", "cancel", "shutdown", "undelay", "yield", "pwait", "join":
 	default:
 		if op.B < 0 || op.B >= len(r.bars) || r.bars[op.B] == nil {
 			x.Calls = append(x.Calls, Call{Client: client, Op: op.String(), Inv: mcrt.Step(), Ret: mcrt.Step() + 1, Res: "skipped"})
@@ -483,6 +484,8 @@ func (r *runner) do(client int, op Op) {
 			close(r.delay)
 		case "yield":
 			mcrt.Yield()
+		case "join":
+			r.wg.Wait() // all client threads have finished their operations
 		case "traverse":
 			n := 0
 			bar.TraverseDecorators(func(decor.Decorator) { n++ })
@@ -507,6 +510,14 @@ func (r *runner) do(client int, op Op) {
 			return fmt.Sprintf("%d,%v", n, err)
 		case "isrun":
 			return fmt.Sprint(bar.IsRunning())
+		case "cur":
+			return fmt.Sprint(bar.Current())
+		case "comp":
+			return fmt.Sprint(bar.Completed())
+		case "abrt":
+			return fmt.Sprint(bar.Aborted())
+		case "id":
+			return fmt.Sprint(bar.ID())
 		}
 		return ""
 	})
@@ -559,6 +570,7 @@ func (sp *Spec) Run(x *X) {
 		r.do(0, op)
 	}
 	var wg sync.WaitGroup
+	r.wg = &wg
 	for ci, ops := range sp.Clients {
 		ci, ops := ci, ops
 		wg.Add(1)
